@@ -9,7 +9,7 @@ n=$(basename $d .diff)
 export GOFLAGS=-mod=mod GOPROXY=off GOSUMDB=off GOTOOLCHAIN=local
 BIN=${BIN:-/verif/bin/maddyverif}
 ok=""
-for base in $(git -C /repo log --format=%h -60); do
+for base in ${PIN_BASE:-$(git -C /repo log --format=%h -60)}; do
   wt=/tmp/rb_$n.$$
   flock /tmp/.verif_wt.lock git -C /repo worktree add -q --detach $wt $base || exit 2
   if ! git -C $wt apply --check $d 2>/dev/null; then
